@@ -362,8 +362,12 @@ def r4(ctx):
                             "event.kind.as:OrderCancelled.0"]),
     }
     n = 0
+    # the full-snapshot arm may apply an instrument's order reports itself (the body of update_from_account_snapshot written out):
+    # those calls belong to the Snapshot arm, checked below
+    snap_el = "Iterator::next(event.kind.as:Snapshot.0.instruments).as:Some.0"
+    inl = [(bi, t, tm) for bi, t, tm in calls if mir.short(tm[1]) == "InstrumentState::update_from_order_snapshot" and snap_el in render(tm[2][1])]
     for variant, (callee, args) in want.items():
-        cs = [(bi, t, tm) for bi, t, tm in calls if mir.short(tm[1]) == callee]
+        cs = [(bi, t, tm) for bi, t, tm in calls if mir.short(tm[1]) == callee and (bi, t, tm) not in inl]
         ok = len(cs) == 1 and [render(a) for a in cs[0][2][2]] == args
         if ok:
             g = b.guard(cs[0][0])
@@ -379,6 +383,15 @@ def r4(ctx):
         a0, a1 = cs[0][2][2]
         ok = render(a0) == "InstrumentStates::instrument_index_mut(self.instruments, %s.instrument)" % render(a1) and \
             "event.kind.as:Snapshot.0.instruments" in render(a1)
+    if not cs and len(inl) == 1:
+        # written out: for every order report of the instrument snapshot, unconditionally, to the state selected by that snapshot's key
+        a0, a1 = inl[0][2][2]
+        g = b.guard(inl[0][0])
+        ok = render(a0) == "InstrumentStates::instrument_index_mut(self.instruments, %s.instrument)" % snap_el and \
+            render(a1) == "Snapshot::Snapshot{0: Iterator::next(%s.orders).as:Some.0}" % snap_el and \
+            common.loop_body_always_continues(b, a1[3][0][1] if a1[0] == "agg" and a1[3] and a1[3][0][0] == "proj" else ("const", "?", "")) and \
+            len(g) == 1 and all(a[0] == "is" and (render(a[1]) == "event.kind" or render(a[1]).startswith("Iterator::next(")) for a in next(iter(g)))
+        cs = inl
     n += 1
     ctx.check("EngineState::update_from_account:Snapshot", ok,
               "each instrument snapshot is applied to the instrument state selected by that snapshot's own instrument key",
